@@ -61,7 +61,13 @@ def env():
             table: Dict[str, In] = {}
             n: int = 0
 
-        _ENV.update(In=In, Out=Out)
+        from spec_classes import spec_property
+
+        # an instance that several threads share (none of them modifies it): one attribute is derived and cached on first read
+        Sh = spec_class(bootstrap=True)(type("Sh", (), {
+            "__annotations__": {"n": int, "extra": List[Any], "mods": List[Any]},
+            "n": 0, "extra": [sys], "mods": spec_property(lambda self: [math, {"k": sys}], cache=True), "__module__": "vf.generated"}))
+        _ENV.update(In=In, Out=Out, Sh=Sh)
     return _ENV
 
 
@@ -305,8 +311,19 @@ def thread_fns(shape, n):
         lambda: {"a": Out(items=[make_in(6)]), "m": math},
     ]
     fns = []
+    shared = env()["Sh"]()
     for i in range(n):
         kind = shape[i % len(shape)]
+        if kind.startswith("shared_"):
+            def sfn(kind=kind):
+                if kind == "shared_deepcopy":
+                    c = copy.deepcopy([shared])
+                    return c[0].n == shared.n, c
+                c = shared.with_mod(sys).with_n(1)  # copy-on-write helpers: the shared receiver is only read
+                return c.n == 1 and shared.n == 0, c
+
+            fns.append(sfn)
+            continue
         src = values[i % len(values)]()
 
         if kind in ("deepcopy", "helper"):
@@ -391,7 +408,8 @@ def count_steps(shape, threads, narrow=False):
     return sched.step, first
 
 
-SHAPES = [["deepcopy", "deepcopy"], ["helper", "deepcopy"], ["protect", "helper"], ["deepcopy", "protect", "helper"]]
+SHAPES = [["deepcopy", "deepcopy"], ["helper", "deepcopy"], ["protect", "helper"], ["deepcopy", "protect", "helper"],
+          ["shared_deepcopy", "shared_helper"], ["shared_helper", "shared_helper"]]
 
 BOUNDS = {
     "quick": dict(seq_examples=40, seq_units=8, conc_hyp=40, double=False),
